@@ -96,25 +96,35 @@ def increment_table(rep, prog, rule="INCREMENT-TABLE"):
 
 
 def _atom(c):
-    """classify a branch condition of RoundMode::round::inner"""
+    """classify a branch condition of RoundMode::round::inner; the tie atoms are only recognised in a form that is
+    exact for every increment: |2 * remainder| against the increment itself (or |remainder| against increment -
+    |remainder|); a comparison against a derived half of the increment is not a tie test for odd increments"""
     if not (isinstance(c, tuple) and c and c[0] == "call"):
         return None
     name = c[1].split("::")[-1]
     if name not in ("gt", "lt", "eq", "ne", "ge", "le"):
         return None
     a, b = c[2][0], c[2][1]
-    has_abs = lambda t: any(is_call(x, "::abs") for x in walk(t))
-    is_sign = lambda t: any(is_call(x, "util::t::C128") for x in walk(t)) and not has_abs(t)
+    calls = lambda t, suf: any(is_call(x, suf) for x in walk(t))
+    has_abs = lambda t: calls(t, "::abs")
+    is_sign = lambda t: calls(t, "util::t::C128") and not has_abs(t) and not calls(t, "::rem_ceil")
     has_rem2 = lambda t: any(isinstance(x, tuple) and x and x[0] == "call" and "Rem" in x[1] for x in walk(t))
-    if has_abs(a) and name == "gt":
+    is_increment = lambda t: t[0] == "param" and t[2] == "increment"
+    is_const = lambda t, v: t[0] == "call" and t[1].split("::")[-1] in ("C", "C128") and t[2] and t[2][0] == ("const", v)
+    doubled_rem = lambda t: has_abs(t) and calls(t, "::rem_ceil") and any(
+        isinstance(x, tuple) and x and x[0] == "call" and x[1].endswith("::mul") and any(is_const(y, 2) for y in x[2]) for x in walk(t))
+    plain_rem = lambda t: has_abs(t) and calls(t, "::rem_ceil") and not calls(t, "::mul") and not calls(t, "::div")
+    inc_minus_rem = lambda t: t[0] == "call" and t[1].endswith("::sub") and len(t[2]) == 2 and is_increment(t[2][0]) and plain_rem(t[2][1])
+    exact_tie = (doubled_rem(a) and is_increment(b)) or (plain_rem(a) and inc_minus_rem(b))
+    if exact_tie and name == "gt":
         return "tb>inc"
-    if has_abs(a) and name == "eq":
+    if exact_tie and name == "eq":
         return "tb==inc"
-    if is_sign(a) and name == "gt":
+    if is_sign(a) and name == "gt" and is_const(b, 0):
         return "sign>0"
-    if is_sign(a) and name == "lt":
+    if is_sign(a) and name == "lt" and is_const(b, 0):
         return "sign<0"
-    if has_rem2(a) and name == "eq":
+    if has_rem2(a) and calls(a, "::div_ceil") and name == "eq" and is_const(b, 1):
         return "odd"
     return None
 
